@@ -335,19 +335,29 @@ func r02_5(c *RC) {
 		c.Anchor("Session.runOutputOncePacket")
 		return
 	}
-	// the ack segment: a dataAckStruct literal whose protocol is ack*; find the output call that transmits it
+	// the ack segment: a dataAckStruct literal whose protocol is ack*; find the
+	// output call that transmits it - in runOutputOncePacket or in a stage
+	// helper it calls (then the call sites leading there are part of the gate)
 	var ackOut *ssa.Call
-	instrs(fn, func(_ *ssa.BasicBlock, _ int, in ssa.Instruction) {
-		cl, ok := in.(*ssa.Call)
-		if !ok || calleeName(cl) != "output" {
-			return
-		}
-		if al, ok := cl.Call.Args[1].(*ssa.Alloc); ok && strings.Contains(al.Type().String(), "segment") {
-			ackOut = cl
-		}
-	})
+	for _, f := range withHelpers(p, fn, 2) {
+		instrs(f, func(_ *ssa.BasicBlock, _ int, in ssa.Instruction) {
+			cl, ok := in.(*ssa.Call)
+			if !ok || calleeName(cl) != "output" {
+				return
+			}
+			if al, ok := cl.Call.Args[1].(*ssa.Alloc); ok && strings.Contains(al.Type().String(), "segment") {
+				ackOut = cl
+			}
+		})
+	}
 	if ackOut == nil {
 		c.Bad("ack-site", fn.Pos(), "runOutputOncePacket no longer builds and transmits an ack segment")
+		return
+	}
+	ackFn := ackOut.Parent()
+	chain, okChain := callChain(p, fn, ackFn, 2)
+	if !okChain {
+		c.Undecided("ack-site", ackOut.Pos(), "the ack is transmitted in %s, which is not reached from runOutputOncePacket through one static call site per level", fnName(ackFn))
 		return
 	}
 	classify := func(v ssa.Value) string {
@@ -383,11 +393,15 @@ func r02_5(c *RC) {
 	}
 	var vocab []string
 	seenV := map[string]bool{}
-	for _, ce := range controlConds(fn, ackOut.Block()) {
-		for _, k := range condVocab(ce.If.Cond, classify) {
-			if !seenV[k] {
-				seenV[k] = true
-				vocab = append(vocab, k)
+	gatePoints := append([]ssa.Instruction{}, chain...)
+	gatePoints = append(gatePoints, ackOut)
+	for _, gp := range gatePoints {
+		for _, ce := range controlConds(gp.Parent(), gp.Block()) {
+			for _, k := range condVocab(ce.If.Cond, classify) {
+				if !seenV[k] {
+					seenV[k] = true
+					vocab = append(vocab, k)
+				}
 			}
 		}
 	}
@@ -405,16 +419,15 @@ func r02_5(c *RC) {
 	}
 	// the decision is reached on every invocation except in the output-error state
 	var decision ssa.Instruction
-	instrs(fn, func(_ *ssa.BasicBlock, _ int, in ssa.Instruction) {
-		if cl, ok := in.(*ssa.Call); ok && decision == nil {
+	instrs(ackFn, func(_ *ssa.BasicBlock, _ int, in ssa.Instruction) {
+		if _, ok := in.(*ssa.Call); ok && decision == nil {
 			if n, _ := atomicCallOn(in, p.Field(protoPkg, "Session", "ackOnDataRecv")); n == "Load" {
 				decision = in
 			}
-			_ = cl
 		}
 	})
 	// the first instruction of the decision: walk to the dominating isClientPacketSessionOpening call if present
-	instrs(fn, func(_ *ssa.BasicBlock, _ int, in ssa.Instruction) {
+	instrs(ackFn, func(_ *ssa.BasicBlock, _ int, in ssa.Instruction) {
 		if cl, ok := in.(*ssa.Call); ok && calleeName(cl) == "isClientPacketSessionOpening" && decision != nil && instrDominates(in, decision) {
 			decision = in
 		}
@@ -422,39 +435,42 @@ func r02_5(c *RC) {
 	if decision == nil {
 		c.Bad("ack-decision-reached", fn.Pos(), "no ack decision (ackOnDataRecv.Load) in runOutputOncePacket")
 	} else {
-		entry := fn.Blocks[0].Instrs[0]
+		// at every level: each path from entry reaches the next point (the
+		// call of the stage helper, finally the decision itself)
 		bad := ""
-		seen := map[*ssa.BasicBlock]bool{}
-		var walk func(b *ssa.BasicBlock, from int)
-		walk = func(b *ssa.BasicBlock, from int) {
-			for _, in := range b.Instrs[from:] {
-				if in == decision {
-					return
-				}
-				if r, ok := in.(*ssa.Return); ok {
-					okRet := false
-					for _, ce := range controllingEdges(b) {
-						if cl, ok := ce.If.Cond.(*ssa.Call); ok && ce.Idx == 0 {
-							if f := fieldOrigin(cl.Call.Args[0]); f != nil && f.Name() == "outputHasErr" {
-								okRet = true
+		targets := append(append([]ssa.Instruction{}, chain...), decision)
+		for _, target := range targets {
+			seen := map[*ssa.BasicBlock]bool{}
+			var walk func(b *ssa.BasicBlock, from int)
+			walk = func(b *ssa.BasicBlock, from int) {
+				for _, in := range b.Instrs[from:] {
+					if in == target {
+						return
+					}
+					if r, ok := in.(*ssa.Return); ok {
+						okRet := false
+						for _, ce := range controllingEdges(b) {
+							if cl, ok := ce.If.Cond.(*ssa.Call); ok && ce.Idx == 0 {
+								if f := fieldOrigin(cl.Call.Args[0]); f != nil && f.Name() == "outputHasErr" {
+									okRet = true
+								}
 							}
 						}
+						if !okRet {
+							bad = p.Pos(r.Pos())
+						}
+						return
 					}
-					if !okRet {
-						bad = p.Pos(r.Pos())
+				}
+				for _, s := range b.Succs {
+					if !seen[s] {
+						seen[s] = true
+						walk(s, 0)
 					}
-					return
 				}
 			}
-			for _, s := range b.Succs {
-				if !seen[s] {
-					seen[s] = true
-					walk(s, 0)
-				}
-			}
+			walk(target.Parent().Blocks[0], 0)
 		}
-		_ = entry
-		walk(fn.Blocks[0], 0)
 		if bad == "" {
 			c.OKH("ack-decision-reached", decision.Pos(), "every path from entry reaches the ack decision, except the output-error early return")
 		} else {
@@ -464,7 +480,7 @@ func r02_5(c *RC) {
 	// the ack carries the current receive window
 	ws := p.Field(protoPkg, "dataAckStruct", "windowSize")
 	found := false
-	instrs(fn, func(_ *ssa.BasicBlock, _ int, in ssa.Instruction) {
+	instrs(ackFn, func(_ *ssa.BasicBlock, _ int, in ssa.Instruction) {
 		st, ok := in.(*ssa.Store)
 		if !ok {
 			return
